@@ -13,7 +13,7 @@ import (
 // introspectRemoteSchema; the reconstructed schema must equal the descriptor.
 
 type v15Queryer struct {
-	answer   map[string]interface{}
+	answer    map[string]interface{}
 	noDepEnum func() // called when the query does not ask for deprecated enum values
 }
 
